@@ -58,8 +58,9 @@ func (o *Once) Do(f func()) {
 	}
 	if simrt.OnceEnter(unsafe.Pointer(o)) {
 		defer func() {
-			o.done = true
+			// publish first (the release edge), then let late callers take the fast path
 			simrt.OnceDone(unsafe.Pointer(o))
+			o.done = true
 		}()
 		f()
 	}
